@@ -470,5 +470,24 @@ def run(cx, tier='quick'):
     # "a disabled trait named in an attribute is refused like an unknown one" presupposes that every field's attributes reach a scanner
     from .c13 import check_field_scan_coverage as _cover
     from ..facts import Facts as _Fc
-    _cover(cx, _Fc(cx), rep)
+    _fc = _Fc(cx)
+    _cover(cx, _fc, rep)
+    # ... and that every scanner refuses a name Trait::from_path does not know (a disabled trait has no from_path arm: CFG-GATES)
+    from .c13 import check_scanners as _scan
+    from ..report import Report as _R
+    sub = _R(rep.prop)
+    _scan(cx, _fc, sub)
+    n = 0
+    for fnd in sub.findings:
+        if fnd.rule == 'SCAN' and ('unknown-trait' in fnd.key or 'attribute-loop' in fnd.key or 'meta-loop' in fnd.key or 'early-exit' in fnd.key or 'continue' in fnd.key):
+            rep.findings.append(fnd)
+    for r, i, v in sub.checked:
+        if r == 'SCAN' and ('unknown-trait-rejected' in i or 'visits-all' in i):
+            rep.checked.append((r, i, v))
+            n += 1
+    rep.counts['SCAN'] = rep.counts.get('SCAN', 0) + n
+    for b in sub.broken:
+        if b not in rep.broken:
+            rep.broken.append(b)
+    rep.floor('SCAN', 40, '(24 scanners × 2 obligations)')
     return rep
